@@ -370,6 +370,21 @@ def gp : P String := do
       allLt A (fun a => decide (iM.get s a = 0) || decide (mx - 2 * tieSlack B ≤ q.get s a))))) s!"{comp} weight_far_below_max"
   return v.render
 
+/-- `bop S A Q[S][A] | n V[n] nActs acts[nActs]`: `bellmanOperator(Q)` -/
+def bop : P String := do
+  let S ← P.nat; let A ← P.nat; let q ← matP S A; P.bar
+  let n ← P.nat; let iV ← vecP n; let iActsL ← P.nats; let iActs := iActsL.toArray; P.eof
+  let comp := "bellmanOperator"
+  let mo := bellmanOp S A q
+  let v : Verdict := { tag := (if A ≤ 1 then "trivial " else "") ++ "bop" }
+  let v := v.diffIf (mo.values != iV || mo.actions != iActs) s!"{comp} model={showVec mo.values} {mo.actions} impl={showVec iV} {iActs}"
+  -- bellmanOp_spec on the implementation's own output: S entries each, V(s) = Q(s, a_s) = row maximum, a_s the first maximiser
+  let v := v.failIf (n != S || iActs.size != S) s!"{comp} wrong_size"
+  let v := v.failIf (!(checkGreedy S A q.get (natAt iActs) 0)) s!"{comp} action_not_greedy {iActs}"
+  let v := v.failIf (!(allLt S (fun s => iV.get s == q.get s (natAt iActs s)))) s!"{comp} v_not_max_q"
+  let v := v.failIf (!(allLt S (fun s => allLt (natAt iActs s) (fun a => decide (q.get s a < q.get s (natAt iActs s)))))) s!"{comp} not_first_maximum"
+  return v.render
+
 /-- `settol <class> threw tolAfter tolBefore`: a negative tolerance is rejected and leaves the object unchanged -/
 def settol : P String := do
   let cls ← P.tok; let threw ← P.bool; let after ← P.q; let before ← P.q; P.eof
@@ -381,7 +396,7 @@ def settol : P String := do
 def componentOf (op : String) : String :=
   match op with
   | "vi" => "ValueIteration" | "pe" => "PolicyEvaluation" | "pi" => "PolicyIteration" | "lp" => "LinearProgramming"
-  | "gp" => "QGreedyPolicy" | "agree" => "Agreement" | _ => "Representations"
+  | "gp" => "QGreedyPolicy" | "bop" => "bellmanOperator" | "agree" => "Agreement" | _ => "Representations"
 
 def handle (toks : List String) : String :=
   -- a NaN or an infinity anywhere in an output is never "the optimal value function"
@@ -390,6 +405,7 @@ def handle (toks : List String) : String :=
   if outs == ["|", "timeout"] then s!"fail {componentOf (toks.headD "")} does_not_terminate" else
   let r := match toks with
     | "gp" :: rest => P.run gp rest
+    | "bop" :: rest => P.run bop rest
     | "settol" :: rest => P.run settol rest
     | "getter" :: _ :: cls :: _ => some s!"fail {cls} getter_mismatch"
     | "vi" :: rest => P.run vi rest
